@@ -79,6 +79,10 @@ def gen_schedule(rng, i, tier):
     for r_ in sorted(files):
         if r_.endswith(('.yaml', '.rules', '.csv')) and rng.random() < 0.15:
             files[r_] = files[r_].replace('\r\n', '\n').replace('\n', '\r\n')
+    # deliberately empty files are files: an empty rules / views / .gitignore file exists and must be kept
+    for r_ in (base + 'config/merchants.rules', base + 'config/views.rules', base + '.gitignore', base + 'config/merchant_categories.csv'):
+        if rng.random() < 0.08 and (r_ in files or r_.endswith('.gitignore')):
+            files[r_] = ''
     sp_ = base + 'config/settings.yaml'
     if rng.random() < 0.1:
         files[sp_] = files[sp_].rstrip('\n') + rng.choice(['', '\n\n\n', '  \n', '\n# end'])
